@@ -127,7 +127,7 @@ def blocks(thorough):
             dict(id="expr-k1-codes012", stmt="expr", nmax=3, k=1, bases=("name", "words"), seps=(";", "nl"), codes=(0, 1, 2)),
             dict(id="expr-k1-texts", stmt="expr", nmax=3, k=1, bases=("pyexpr", "nonpy"), seps=(";", "nl")),
             dict(id="expr-k2-n2", stmt="expr", nmax=2, k=2, kmin=2, bases=("name", "words"), seps=(";", "nl")),
-            dict(id="expr-k2-n3", stmt="expr", nmin=3, nmax=3, k=2, kmin=2, bases=("name", "words"), uniform=True),
+            dict(id="expr-k2-n3", stmt="expr", nmin=3, nmax=3, k=2, kmin=2, bases=("words",), uniform=True),
             dict(id="assign-k1", stmt="assign", nmax=3, k=1, bases=("name", "words"), seps=(";", "nl")),
             dict(id="assign-k2-n2", stmt="assign", nmax=2, k=2, kmin=2, bases=("name", "words"), seps=(";", "nl")),
             dict(id="if-k1", stmt="if", nmax=3, k=1, bases=("name", "words")),
